@@ -59,6 +59,16 @@ def gen_sort_case(rnd):
         # ("mixed" would store equal numbers as different Go kinds: such rows are not exact duplicates for DISTINCT)
         return mk_case({"t": rows}, q, mode="sorted" if limit is None else "keyseq", order_keys=[[k] for k in keys],
                        source_rows=src, tag="sort-distinct", num_kind=None if nk == "mixed" else nk)
+    if not nullable and rnd.random() < 0.08:
+        # the sort keys are computed by ASYNC calls (VF_SLOW(tag, x) returns x): ORDER BY and the window see their VALUES
+        spell = rnd.choice([0, 1])
+        q_go = select([item(["func", "async", "vf_slow", [["str", "s"], col(k)]], k) for k in keys] + [item(col("id"))], table("t"),
+                      order=order, limit=limit, offset=offset, limit_spelling=spell)
+        q_model = select([item(col(k), k) for k in keys] + [item(col("id"))], table("t"), order=order, limit=limit, offset=offset,
+                         limit_spelling=spell)
+        src = [dict({k: r[k] for k in keys}, id=r["id"]) for r in rows]
+        return mk_case({"t": rows}, q_model, mode="sorted" if limit is None else "keyseq", order_keys=[[k] for k in keys],
+                       source_rows=src, tag="sort-async-keys", sql=query_sql(q_go))
     q = select([["star"]], table("t"), order=order, limit=limit, offset=offset,
                limit_spelling=rnd.choice([0, 1]))
     mode = "sorted" if limit is None else "keyseq"
